@@ -294,8 +294,8 @@ var fake = ev.NewCheck("C13", "track-record-fake-port", rule+"; port = determini
 var tdrv = ev.NewCheck("C13", "track-record-testdrv", rule+"; port = testdrv with Driver.Sleep as clock (first recorded delta exempt: that driver's first time stamp contains the wall clock)", genCase("testdrv"), run)
 var smfrec = ev.NewCheck("C13", "smf-record", rule+"; SMF.RecordFrom on the fake port (its stop function sleeps one second; cases run in parallel)", genCase("smf-fake"), run)
 
-func TestPropTrackRecordFake(t *testing.T)    { fake.Rapid(t, 500, 40000) }
-func TestPropTrackRecordTestdrv(t *testing.T) { tdrv.Rapid(t, 300, 20000) }
+func TestPropTrackRecordFake(t *testing.T)    { fake.Rapid(t, 1500, 40000) }
+func TestPropTrackRecordTestdrv(t *testing.T) { tdrv.Rapid(t, 800, 20000) }
 
 // SMF.RecordFrom sleeps a second in stop: few cases, all in parallel, drawn by rapid.
 func TestPropSMFRecord(t *testing.T) {
